@@ -297,6 +297,8 @@ func init() {
 			r.Try(func() { ruleDescriptorImmutable(w, r, "R01.13") })
 			r.Rule("R01.14", 1, "the descriptors derived for one constructor are registered all or none (a partly registered family makes the constructor run for the part and store the rest over other registrations)")
 			r.Try(func() { ruleFamilyRegisteredWhole(w, r, "R01.14") })
+			r.Rule("R01.19", 1, "both instance tables take their keys the same way: as handed in, or through one normalising function at every access")
+			r.Try(func() { ruleTableKeysAgree(w, r, "R01.19") })
 			r.Rule("R01.15", 3, "group members keep distinct instance keys: a member's key is its position at insertion, so a group only grows by append and every writer keeps the three views in step (a member removed from the middle makes the next one reuse a live key: two registrations, one instance)")
 			r.Try(func() { reexport(w, r, "R01.15", func(sub *Report) { checkC17(w, sub) }, "R17.1", "R17.3") })
 			r.Rule("R01.16", 1, "every singleton the provider knows was constructed at Build: graph, eager creation order and the registry snapshot come from one critical section of the collection")
@@ -322,6 +324,10 @@ func init() {
 			r.Rule("R02.8", 8, "no captive path: the lifetime-validation rules of C07 (a singleton or transient that captures a scoped instance makes scopes share it)")
 			r.Rule("R02.9", 20, "R-KEYLIT: cache keys keep every identity component")
 			r.Try(func() { ruleWhoWritesTables(w, r, "", "R02.1", la) })
+			r.Rule("R02.18", 1, "both instance tables take their keys the same way: as handed in, or through one normalising function at every access (a cache that is not canonicalised while the registry and the singleton table are holds one instance per spelling of a key)")
+			r.Try(func() { ruleTableKeysAgree(w, r, "R02.18") })
+			r.Rule("R02.19", 6, "who-may-call createInstance: the scope initializer pass, the scoped / transient clauses of resolve, eager creation - a new way to obtain a service goes through resolve (a direct call constructs a scoped service that the cache already holds)")
+			r.Try(func() { ruleCreateCallSites(w, r, "R02.19") })
 			r.Try(func() { ruleResolveSwitch(w, r, "", "R02.2", "") })
 			r.Try(func() { ruleCreateStores(w, r, "R02.3") })
 			r.Try(func() { ruleTracking(w, r, "R02.3b", "R02.3b", "") })
@@ -388,6 +394,8 @@ func init() {
 			r.Try(func() { ruleWhoWritesTables(w, r, "R03.10", "R03.10", la) })
 			r.Rule("R03.11", 3, "a service is transient exactly when it was registered so: Descriptor.Lifetime is only ever the Lifetime parameter of the registration call or a copy of the base descriptor's (a descriptor made up at resolution time with another lifetime caches what should be fresh)")
 			r.Try(func() { ruleLifetimeSource(w, r, "R03.11") })
+			r.Rule("R03.13", 6, "a transient is constructed where it is asked for: createInstance is called only from the initializer pass, the scoped / transient clauses of resolve and eager creation (a new way to obtain a service that answers from arguments or a side table before the Transient clause hands the same value to every site)")
+			r.Try(func() { ruleCreateCallSites(w, r, "R03.13") })
 			r.Rule("R03.12", 1, "what resolution hands out is remembered in the instance tables only: no value that came out of a resolution is stored in a field of a record the container shares")
 			r.Try(func() { ruleNoResolvedValueKept(w, r, "R03.12") })
 			r.Rule("R03.7", 1, "no recycled storage on the resolution path (no sync.Pool)")
@@ -404,6 +412,8 @@ func init() {
 			r.Rule("R04.7", 20, "R-KEYLIT")
 			r.Rule("R04.8", 6, "the graph and the invoker see the same dependencies")
 			r.Try(func() { ruleFunctionIdentity(w, r, "R04.1") })
+			r.Rule("R04.19", 3, "what a provider serves was wired by that provider: the instance tables are written by the creation chain only (an instance adopted from another provider was built with that provider's registrations - its group members, its overrides - not this one's)")
+			r.Try(func() { ruleWhoWritesTables(w, r, "R04.19", "R04.19", NewLockAnalysis(w)) })
 			r.Try(func() { ruleGroupOrder(w, r, "R04.2") })
 			r.Try(func() { ruleFieldFilters(w, r, "R04.3") })
 			r.Try(func() { ruleFamilyFanOut(w, r, "", "R04.4") })
@@ -469,6 +479,8 @@ func init() {
 			r.Try(func() { ruleBuildOneCriticalSection(w, r, "R05.16") })
 			r.Rule("R05.17", 3, "two registrations never share one graph node: every insertion is guarded by the duplicate test, group members get a fresh position (append only), and the views stay in step")
 			r.Try(func() { reexport(w, r, "R05.17", func(sub *Report) { checkC17(w, sub) }, "R17.1", "R17.2", "R17.3") })
+			r.Rule("R05.19", 1, "the graph that is checked for cycles covers every registration the provider serves: no function a Build runs writes a registry view")
+			r.Try(func() { ruleBuildReadsRegistry(w, r, "R05.19") })
 			r.Rule("R05.18", 2, "the graph that is checked for cycles is the graph that was described: both adds replace the node's edge list on every accepting path (a replacement never inherits edges)")
 			r.Try(func() { ruleAddReplacesEdges(w, r, "R05.18") })
 			r.Rule("R05.11", 1, "the edge table and the nodes' own dependency lists describe the same edges")
